@@ -74,6 +74,87 @@ theorem bucket_at_or_after_end (start end_ step ts : Int) (h1 : start ≤ ts) (h
 
 example : FindTimeRangeBucket 100 10 20 55 = 50 := by decide
 
+/-! the cells of the SPECIFICATION's timechart (Spec/Logs.lean `bucketOf`, `tcBucket`) and their tie to the kernel -/
+section SpecCells
+open SigModel.Spec
+
+/-- C04.5 (specification side) the cell `bucketOf` of the layout-free specification (Spec/Logs.lean, what the end-to-end
+differential compares timecharts with) contains the timestamp and lies on the grid `start + k·span` -/
+theorem spec_bucket_partition (start span ts : Nat) (hs : 0 < span) (h1 : start ≤ ts) :
+    bucketOf start span ts ≤ ts ∧ ts < bucketOf start span ts + span ∧ (bucketOf start span ts - start) % span = 0 := by
+  unfold bucketOf
+  have a := Nat.div_mul_le_self (ts - start) span
+  have b := Nat.lt_div_mul_add (a := ts - start) hs
+  refine ⟨by omega, by omega, ?_⟩
+  rw [Nat.add_sub_cancel_left]; exact Nat.mul_mod_left _ _
+
+/-- … and it is the ONLY cell of the grid that contains the timestamp: every event is counted in exactly one cell -/
+theorem spec_bucket_unique (start span ts k : Nat) (h1 : start + k * span ≤ ts) (h2 : ts < start + k * span + span) :
+    start + k * span = bucketOf start span ts := by
+  unfold bucketOf
+  have : (ts - start) / span = k := by
+    apply Nat.div_eq_of_lt_le
+    · omega
+    · rw [Nat.add_mul]; omega
+  rw [this]
+
+/-- tie: strictly inside the range the regenerated kernel FindTimeRangeBucket computes exactly the specification's cell -/
+theorem kernel_bucket_eq_spec (start end_ step ts : Nat) (_hs : 0 < step) (h1 : start ≤ ts) (h2 : ts < end_)
+    (hmax : end_ < 18446744073709551616) :
+    FindTimeRangeBucket end_ start step ts = ((bucketOf start step ts : Nat) : Int) := by
+  have hq : (ts - start) / step * step ≤ ts - start := Nat.div_mul_le_self _ _
+  have hdl : (ts - start) / step ≤ ts - start := Nat.div_le_self _ _
+  simp only [FindTimeRangeBucket, wrapU64, bucketOf]
+  have hnl : ¬ ((ts : Int) < start) := by omega
+  have hng : ¬ ((ts : Int) ≥ end_) := by omega
+  simp only [hnl, hng, decide_false, Bool.false_eq_true, ↓reduceIte]
+  have c1 : ((ts : Int) - start) = ((ts - start : Nat) : Int) := by omega
+  rw [c1]
+  have e1 : ((ts - start : Nat) : Int) % 18446744073709551616 = ((ts - start : Nat) : Int) := Int.emod_eq_of_lt (by omega) (by omega)
+  rw [e1]
+  have htd : Int.tdiv ((ts - start : Nat) : Int) (step : Int) = (((ts - start) / step : Nat) : Int) := by
+    rw [Int.tdiv_eq_ediv_of_nonneg (by omega)]; exact (Int.natCast_ediv _ _).symm
+  rw [htd]
+  clear htd
+  generalize (ts - start) / step = q at *
+  have e2 : ((q : Nat) : Int) % 18446744073709551616 = ((q : Nat) : Int) := Int.emod_eq_of_lt (by omega) (by omega)
+  rw [e2]
+  have c2 : ((q : Nat) : Int) * (step : Int) = ((q * step : Nat) : Int) := by simp
+  rw [c2]
+  have e3 : ((q * step : Nat) : Int) % 18446744073709551616 = ((q * step : Nat) : Int) := Int.emod_eq_of_lt (by omega) (by omega)
+  rw [e3]
+  have c3 : (start : Int) + ((q * step : Nat) : Int) = ((start + q * step : Nat) : Int) := by simp
+  rw [c3]
+  exact Int.emod_eq_of_lt (by omega) (by omega)
+
+/-- an event exactly ON the end bound (the search stage matches `ts ≤ end`): when the bound lies on the grid the kernel's
+clamped branch folds it into the last cell `[end − step, end]`, which is the specification's closed-range reading `tcBucket` -/
+theorem kernel_end_on_grid (start end_ step : Nat) (hs : 0 < step) (h1 : start < end_) (hg : (end_ - start) % step = 0)
+    (hmax : end_ < 18446744073709551616) :
+    FindTimeRangeBucket end_ start step end_ = ((tcBucket start end_ step end_ : Nat) : Int) := by
+  have hle : step ≤ end_ - start := Nat.le_of_dvd (by omega) (Nat.dvd_of_mod_eq_zero hg)
+  have hnl : ¬ ((end_ : Int) < start) := by omega
+  simp only [FindTimeRangeBucket, wrapU64, tcBucket, hnl, decide_false, Bool.false_eq_true, ↓reduceIte, ge_iff_le, Int.le_refl, decide_true, beq_self_eq_true, h1, hg, Bool.and_self]
+  have : ((end_ : Int) - step) = ((end_ - step : Nat) : Int) := by omega
+  rw [this]
+  exact Int.emod_eq_of_lt (by omega) (by omega)
+
+/-- … but when the end bound does NOT lie on the grid the clamped branch answers `end − step`, which is no cell of the grid
+and whose span `[end − step, end)` does not contain the timestamp: witness range [1, 11], step 3 → 8 (cells 1, 4, 7, 10).
+Replayed end to end: known finding e2e/timechart/event-at-end-bound-off-grid. -/
+theorem kernel_end_off_grid_counterexample :
+    ¬ (∀ start end_ step : Nat, 0 < step → start < end_ → end_ < 18446744073709551616 →
+        (FindTimeRangeBucket end_ start step end_ - start) % step = 0 ∧
+        FindTimeRangeBucket end_ start step end_ ≤ end_ ∧ (end_ : Int) < FindTimeRangeBucket end_ start step end_ + step) := by
+  intro h
+  have := (h 1 11 3 (by decide) (by decide) (by decide)).1
+  revert this
+  decide
+
+example : tcBucket 1 10 3 10 = 7 ∧ bucketOf 1 3 10 = 10 ∧ tcBucket 1 11 3 11 = 10 := by decide
+
+end SpecCells
+
 /-! spec-level algebra: count and sum are additive over any split of the matched events
 (so segmentation / parallel chains cannot change them in the specification) -/
 open SigModel.Spec in
